@@ -30,7 +30,7 @@ def _fuzz_env(out, known_file):
     env = dict(os.environ)
     env.update(ck.SAN_ENV)
     # libFuzzer wants its own handling of aborts; keep leak detection on
-    env["ASAN_OPTIONS"] = "detect_leaks=1:allocator_may_return_null=1:detect_stack_use_after_return=0:symbolize=1:max_allocation_size_mb=4096"
+    env["ASAN_OPTIONS"] = "detect_leaks=1:allocator_may_return_null=1:detect_stack_use_after_return=0:symbolize=1:max_allocation_size_mb=4096:malloc_context_size=6:quarantine_size_mb=64"
     env["UBSAN_OPTIONS"] = "print_stacktrace=1:halt_on_error=1"
     env["VERIF_FUZZ_OUT"] = out
     env["VERIF_KNOWN"] = known_file
